@@ -296,6 +296,20 @@ func c12Share(c *Ctx) {
 				elemT = true
 			}
 		}
+		// equivalent: the whole body is `return slices.Equal(a, b)` on the two parameters (netip.Prefix is comparable: equality of all bits)
+		if !(lenT && elemT) && len(f.Body.List) == 1 {
+			if rs, ok := f.Body.List[0].(*ast.ReturnStmt); ok && len(rs.Results) == 1 {
+				if call, ok := ast.Unparen(rs.Results[0]).(*ast.CallExpr); ok && len(call.Args) == 2 {
+					if cal := core.Callee(f.Info(), call); cal != nil && cal.Pkg() != nil && cal.Pkg().Path() == "slices" && cal.Name() == "Equal" {
+						_, pa := paramIndex(f, core.RootObj(f.Info(), call.Args[0]))
+						_, pb := paramIndex(f, core.RootObj(f.Info(), call.Args[1]))
+						if pa && pb && core.ExprStr(call.Args[0]) != core.ExprStr(call.Args[1]) {
+							lenT, elemT = true, true
+						}
+					}
+				}
+			}
+		}
 		c.R.Checkf(rule, "prefixesEqual-compares-all", c.pos(f.Pos()), lenT && elemT, "prefixesEqual returns false on a length difference and on any element difference")
 	}
 }
